@@ -22,7 +22,7 @@ GROUPS = {"sync": "check_sync"}
 EXPLAIN = {"sync": "explain_sync"}
 CASES = {"quick": 240, "thorough": 2400}
 RULE = ("cases: one write history (put/delete/txn/delete-prefix; bursts, same-value puts, delete-then-recreate, keys under/"
-        "outside/near the watched key or prefix; sleeps; muted watch, injected watch cancellation; thorough: etcd stop/start) "
+        "outside/near the watched key or prefix; sleeps; muted watch, injected watch cancellation, etcd server stop/start) "
         "x 2-4 subscriptions (Sync/SyncRaw/SyncPrefix/SyncRawPrefix, subscribed at any point, fast/slow/late consumer); "
         "non-trivial = at least one message delivered; classes add: a store change was coalesced (+1), consecutive equal store "
         "contents (+2), multi-key content (+4), non-empty content at subscription (+8), fault injected (+16), a content "
@@ -52,8 +52,7 @@ MANIFEST = dict(
                 "model's outputs. Tied to pkg/cluster on every run: real syncer on an embedded etcd, store states read back "
                 "from etcd, every message recorded until quiescence, checked by that Coq checker."),
     level_note=("Trusted: Coq kernel + vm_compute; hand-written model validated on sampled histories; etcd linearizability and "
-                "ticker fairness assumed; watch faults are injected at the client's gRPC stream; etcd restart only in the "
-                "thorough tier."),
+                "ticker fairness assumed; watch faults are injected at the client's gRPC stream."),
     technique="Coq proof (induction over event lists, greedy-matching completeness) + model/implementation correspondence by vm_compute",
 )
 
@@ -126,8 +125,9 @@ def distribution(cases):
 def extra_evidence(tier, cases, results):
     restarts = sum(1 for c in cases for x in (c["in"].get("ops") or []) if x["k"] == "restart")
     return dict(etcd_restart_exercised=restarts > 0, etcd_restarts=restarts,
-                etcd_restart_note=("stop/start of the embedded etcd server in the middle of a history is exercised in the "
-                                   "thorough tier only" if restarts == 0 else "embedded etcd stopped and restarted mid-history"))
+                etcd_restart_note=("NOT exercised in this run" if restarts == 0 else
+                                   "embedded etcd server stopped (CloseServer) and restarted (StartServer) from its data dir in "
+                                   "the middle of %d histories; it restarts cleanly offline" % restarts))
 
 
 def signature(case, result):
